@@ -30,7 +30,7 @@ class Bringup(Harness):
 
     def must_reach_for(self, params):
         vs = params.get("versions", list(range(4, 17)))
-        mr = ["second-reset"]
+        mr = ["second-reset", "later-reset-unanswered-once"]
         if 4 in vs:
             mr.append("v4")
         if any(5 <= v <= 7 for v in vs):
@@ -43,12 +43,13 @@ class Bringup(Harness):
             mr.append("socket-no-reset-needed")
         return mr
 
-    def run(self, ctx, versions=tuple(range(4, 17)), paths=("serial", "socket"), spont=SPONT, F=0, codes=(0x0B,)):
+    def run(self, ctx, versions=tuple(range(4, 17)), paths=("serial", "socket"), spont=SPONT, F=0, codes=(0x0B, 0x02)):
         V = versions[ctx.choice("version", len(versions))]
         path = paths[ctx.choice("path", len(paths))]
         sps = [x for x in spont if not (x == "inside" and path == "serial")]  # a serial host does not wait: nothing to be "inside" of
         sp = sps[ctx.choice("spont", len(sps))]
         code = codes[ctx.choice("code", len(codes))] if sp != "absent" else None
+        lost_rstack = sp == "absent" and ctx.flag("later_rstack_lost")
         faults = ("deliver", "drop", "duplicate", "corrupt")
 
         async def main(loop):
@@ -117,6 +118,27 @@ class Bringup(Harness):
                       "wrongly-framed-request")
             # --- a later reset falls back to legacy framing until negotiation is repeated
             ctx.label("second-reset")
+            if lost_rstack:
+                # the answer to a later reset request is lost once: that request times out, the next one is a full request again
+                ctx.label("later-reset-unanswered-once")
+                prev_fault = st.wire.fault
+                armed = [True]
+
+                def drop_one(d, i, data):
+                    if armed[0] and d == "n" and bytes(data)[:1] == b"\xc1":
+                        armed[0] = False
+                        return "drop"
+                    return prev_fault(d, i, data) if prev_fault is not None else "deliver"
+
+                st.wire.fault = drop_one
+                n_rst0 = len([w for w in st.host_requests() if w[1] == "RST"])
+                rl = await outcome(ez.reset())
+                ctx.check(rl[0] == "TimeoutError", "a reset whose RSTACK was lost ended with %s" % rl[0], "lost-rstack-outcome")
+                rl2 = await outcome(ez.reset())
+                n_rst1 = len([w for w in st.host_requests() if w[1] == "RST"])
+                ctx.check(rl2[0] == "ok" and n_rst1 == n_rst0 + 2, "the reset request after a timed-out one ended with %s, %d RST frame(s) written for two requests (NCP v%d)"
+                          % (rl2[0], n_rst1 - n_rst0, V), "reset-after-timeout")
+                st.wire.fault = prev_fault
             n1 = len(st.host_requests())
             r3 = await outcome(ez.reset())
             ctx.check(r3[0] == "ok", "second reset failed with %s" % r3[0], "second-reset-fails")
@@ -149,7 +171,7 @@ def main(tier):
     if tier == "quick":
         c.run("checks.c09:BRINGUP", {})
         c.out_of_bounds += ["line faults during bring-up (thorough: one fault on each of the first two data frames per direction)", "NCP versions above 16",
-                            "spontaneous RSTACK codes other than software reset (thorough: power-on, watchdog)"]
+                            "spontaneous RSTACK codes other than software reset and power-on (thorough adds watchdog)"]
     else:
         c.run("checks.c09:BRINGUP", {"codes": [0x0B, 0x02, 0x03]})
         c.run("checks.c09:BRINGUP", {"versions": [4, 7, 8, 13, 14, 15, 200], "spont": ["absent"], "F": 2})
